@@ -25,10 +25,23 @@ def scenarios(seed, tier):
                               kinds=['simple', 'contract', 'transport', 'storage', 'storage2', 'multi', 'orderbook', 'orderbook',
                                      'scaled', 'structured', 'plant', 'ext_transport'])
         s['mode'] = 'split' if i % 3 == 2 else 'mono'
+        if i % 5 == 1:
+            s['robust_seed'] = rnd.getrandbits(30)      # additionally optimised with the robust target over perturbed price samples
         yield 'gen%d' % i, s
+    # results of two-stage stochastic programmes are optimised portfolios too: the accounting identity on the SLP read-out
+    from ..comp import slp as S
+    for i in range(n // 10):
+        r1 = random.Random(rnd.getrandbits(48))
+        yield 'slp%d' % i, {'_stream': 'slp', 'case': S.gen_straddle_case(r1) if i % 2 else S.gen_case(r1)}
 
 
 def run_case(scn, drv):
+    if scn.get('_stream') == 'slp':
+        from ..comp import slp as S
+        r0 = S.run_case(scn['case'], drv)
+        # of the oracles of C17 only the one that is C04's statement; the tie of makeSlp belongs to C17
+        return {'evaluated': 1, 'nontrivial': bool(r0.get('nontrivial')), 'features': ['stream:slp'] + [f for f in r0['features'] if f.startswith(('family', 'impl', 'multi'))],
+                'disagreements': [], 'violations': [v for v in r0['violations'] if v['oracle'] == 'slp_dcf_total']}
     r = {'evaluated': 1, 'nontrivial': False, 'features': [], 'disagreements': [], 'violations': []}
     feats = r['features']
     for a in scn['assets']:
@@ -55,6 +68,30 @@ def run_case(scn, drv):
         nz = int((np.abs(rec['out']['DCF'].values).sum(axis=0) > 1e-9).sum())
         r['nontrivial'] = nz >= 2
         r['observed'] = {'value': float(rec['res'].value), 'assets_with_cash_flow': nz}
+    if scn.get('robust_seed') is not None and not isinstance(rec.get('res'), str) and rec.get('out') is not None:
+        # robust target over cost samples from perturbed prices (LP and MIP alike): reported value = sum of the DCF table
+        try:
+            rr = random.Random(scn['robust_seed'])
+            samples = []
+            for _ in range(rr.choice([1, 2, 3])):
+                ps = {}
+                for k, v in rec['prices'].items():
+                    v = np.asarray(v, dtype=float)
+                    ps[k] = v + np.array([gen.q8(rr, -6, 6) for _ in range(len(v))]) if str(k).startswith('p') else v.copy()
+                samples.append(ps)
+            with impl.Quiet():
+                cs = rec['portf'].create_cost_samples(samples, rec['tg'])
+                op_r = rec['portf'].setup_optim_problem(rec['prices'], rec['tg'])
+                res_r = op_r.optimize(target='robust', samples=cs)
+            r['evaluated'] += 1
+            if not isinstance(res_r, str):
+                import eaopack as eao
+                with impl.Quiet():
+                    out_r = eao.io.extract_output(rec['portf'], op_r, res_r, rec['prices'])
+                feats.append('robust-mip' if pf.is_mip(op_r) else 'robust-lp')
+                r['violations'] += pf.orc_value_accounting({'out': out_r, 'res': res_r, 'op': op_r, 'portf': rec['portf']}, 'robust', pf.asset_blocks(rec))
+        except Exception as e:
+            feats.append('robust-error:' + impl.err_class(e))
     if scn.get('mode') == 'split':
         try:
             # on the SAME portfolio / asset / grid objects that were just optimised monolithically
